@@ -176,12 +176,38 @@ pub fn run(tier: Tier) -> ! {
             }
         }
     });
+    // systematic tag matrices (every absent/X/Y assignment of every slot of every occurrence)
+    let mut matrices = tag_matrix_corpora(2, 2, 1);
+    matrices.extend(tag_matrix_corpora(3, 2, tier.pick(7, 1)));
+    matrices.extend(tag_matrix_corpora(2, 3, tier.pick(7, 1)));
+    let small: Vec<Config> = vec![
+        Config { charw: 2, charn: 2, typew: 2, typen: 2, dict: vec![], bucket: 1, solver: 1 },
+        Config { charw: 1, charn: 2, typew: 1, typen: 1, dict: vec![], bucket: 1, solver: 5 },
+        Config { charw: 2, charn: 1, typew: 0, typen: 0, dict: vec!["a".into()], bucket: 1, solver: 0 },
+    ];
+    chk.set("tag_matrix_corpora", json!(matrices.len()));
+    matrices.par_iter().enumerate().for_each(|(i, corpus)| {
+        for (k, cfg) in small.iter().enumerate() {
+            if tier == Tier::Quick && (i + k) % 3 != 0 {
+                continue;
+            }
+            chk.eval(1);
+            let (t, v) = check_case(cfg, corpus, &texts);
+            if t {
+                models.fetch_add(1, std::sync::atomic::Ordering::Relaxed);
+                chk.nontrivial(1);
+            }
+            if let Some((k, what)) = v {
+                chk.violation(sig(&k, cfg, corpus), what, json!({"cfg": cfg, "corpus": corpus}));
+            }
+        }
+    });
     chk.set("trainings_that_returned_a_model", json!(models.into_inner()));
     chk.sample(json!({"cfg": "cw=1 cn=3 tw=0 tn=2 dict=[a,ab,abc,あ] bucket=2 solver=5", "corpus": "tagged-3cat-partial"}));
     chk.sample(json!({"cfg": "cw=2 cn=2 tw=2 tn=2 solver=1", "corpus": "no-word-boundary", "allowed": "Err, never a panic"}));
     chk.assume("a crash of liblinear (C++) kills the engine process; the driver reports that as a violation with the crash log");
     chk.finish(
-        "window / n-gram sizes incl. 0, n > window and differing windows x dictionaries and buckets x solvers x corpora (empty, single sentence, single class, untagged, tagged with 1-3 categories and absent tags, partially annotated, all-unknown, tag-dictionary-only tokens): Trainer::new/add_example/train must return Ok or Err; a returned model must serialise, re-read identically, be accepted by Predictor::new with and without tag prediction, predict and tag every text up to 3 characters without panicking, and hold only 16-bit weights; non-trivial = a model was returned; evaluations count (configuration, corpus) pairs",
+        "window / n-gram sizes incl. 0, n > window and differing windows x dictionaries and buckets x solvers x corpora (empty, single sentence, single class, untagged, tagged with 1-3 categories and absent tags, partially annotated, all-unknown, tag-dictionary-only tokens) plus all tag matrices (2 slots x 2 occurrences: all 81; 3x2 and 2x3: all 729 each in thorough, every 7th in quick) under three configurations: Trainer::new/add_example/train must return Ok or Err; a returned model must serialise, re-read identically, be accepted by Predictor::new with and without tag prediction, predict and tag every text up to 3 characters without panicking, and hold only 16-bit weights; non-trivial = a model was returned; evaluations count (configuration, corpus) pairs",
         true,
         &replay,
     )
